@@ -61,12 +61,21 @@ def _operand(n):
     return None
 
 
-def compares(fn):
+def _operand_state(n):
+    """as _operand, and WebSocketProtocol.STATE_* as ('state', name): used for _send only (the write queue)"""
+    if isinstance(n, ast.Attribute) and isinstance(n.value, ast.Name) and n.value.id == "WebSocketProtocol" \
+            and n.attr.startswith("STATE_"):
+        return ("state", n.attr)
+    return _operand(n)
+
+
+def compares(fn, operand=None):
     out = []
+    _op = operand or _operand
 
     class V(ast.NodeVisitor):
         def visit_Compare(self, n):
-            ops = [_operand(x) for x in [n.left] + n.comparators]
+            ops = [_op(x) for x in [n.left] + n.comparators]
             if all(o is not None for o in ops) and not any(isinstance(op, (ast.Is, ast.IsNot)) for op in n.ops):
                 out.append((n.lineno, ops, [type(op).__name__ for op in n.ops], ast.unparse(n)))
             self.generic_visit(n)
@@ -75,7 +84,8 @@ def compares(fn):
 
 
 def skeleton(ops):
-    return tuple(o[1] if o[0] == "name" else {"int": "#", "ints": "[#]", "allowed": "ALLOWED", "const": "K"}[o[0]] for o in ops)
+    return tuple(o[1] if o[0] == "name" else ("S:" + o[1] if o[0] == "state" else
+                                              {"int": "#", "ints": "[#]", "allowed": "ALLOWED", "const": "K"}[o[0]]) for o in ops)
 
 
 # expected comparison skeletons, in source order, with the Coq name each one gets
@@ -138,6 +148,13 @@ EXPECTED = {
     "onFrameData": [(("cur_opcode", "#"), "fd_is_ctl")],
     "onFrameEnd": [(("cur_opcode", "#"), "fe_is_ctl")],
     "sendPong": [(("l", "#"), "sp_too_long")],
+    # the drain of the write queue (synchronous / chopped writes): a queued entry is written unless the connection is CLOSED
+    "_send": [
+        (("self_state", "S:STATE_CLOSED"), "sq_write"),
+        (("self_state", "S:STATE_OPEN"), None),
+        (("self_state", "S:STATE_CONNECTING"), None),
+        (("self_state", "S:STATE_PROXY_CONNECTING"), None),
+    ],
     "sendPreparedMessage": [(("#", "self_maxMessagePayloadSize", "payload_len"), "spm_limit")],
     "sendMessage": [
         (("#", "self_maxMessagePayloadSize", "payload_len"), "sm_limit"),
@@ -160,6 +177,8 @@ def coq_operand(o, consts):
         return str(o[1])
     if o[0] == "const":
         return str(consts[o[1]])
+    if o[0] == "state":
+        return "state_" + o[1][len("STATE_"):].lower()
     raise TranslatorError(f"operand {o}")
 
 
@@ -214,11 +233,15 @@ def generate(path=None):
            f"Definition code_invalid_payload : N := {W.CLOSE_STATUS_CODE_INVALID_PAYLOAD}.",
            f"Definition code_message_too_big : N := {W.CLOSE_STATUS_CODE_MESSAGE_TOO_BIG}.",
            f"Definition code_normal : N := {W.CLOSE_STATUS_CODE_NORMAL}.",
-           f"Definition code_abnormal : N := {W.CLOSE_STATUS_CODE_ABNORMAL_CLOSE}.", ""]
+           f"Definition code_abnormal : N := {W.CLOSE_STATUS_CODE_ABNORMAL_CLOSE}.", "",
+           "(* WebSocketProtocol.STATE_* (by import; pairwise distinct) *)"] + \
+          [f"Definition state_{k.lower()} : N := {v}." for k, v in states.items()] + [""]
+    if not all(type(v) is int and v >= 0 for v in states.values()):
+        raise TranslatorError(f"protocol states are not naturals: {states}")
     for fname, expected in EXPECTED.items():
         if fname not in fns:
             raise TranslatorError(f"function {fname} not found")
-        got = compares(fns[fname])
+        got = compares(fns[fname], _operand_state if fname == "_send" else None)
         if [skeleton(g[1]) for g in got] != [e[0] for e in expected]:
             raise TranslatorError(f"{fname}: comparison structure changed:\n  got      {[skeleton(g[1]) for g in got]}\n  expected {[e[0] for e in expected]}")
         out.append(f"(* ---- {fname} ---- *)")
